@@ -411,6 +411,8 @@ class Sandbox:
 
     def run(self, argv, plan=None, cwd="", tz="UTC", timeout=60.0, config=None):
         plan = plan or {}
+        if config is None:
+            config = plan.get("config")  # a configuration file as part of the environment E
         text = compile_plan(plan, self.world, self.root)
         self.nexec += 1
         res = execute(self.base, argv, os.path.join(self.root, cwd), tz, text, timeout=timeout, config_text=config)
